@@ -299,18 +299,34 @@ def _sig(o):
     return 'raises ' + o[1] if o[0] == 'raises' else 'value:' + str(o[2])
 
 
+def _operands(args):
+    """coarse description of the operands, so that distinct causes fall into distinct witness classes"""
+    op, a = args['op'], args['args']
+    d = []
+    if isinstance(a[0], int) and a[0] < 0 and op not in ('abs', 'set', 'fail_if_divisible_by'):
+        d.append('a<0')
+    if op in ('rshift', 'irshift', 'lshift', 'ilshift', 'get_bit') and isinstance(a[1], int):
+        d.append('n<0' if a[1] < 0 else 'n>65536' if a[1] > 65536 else 'n<=65536')
+    if op in ('pow3', 'inplace_pow3', 'mult_modulo_bytes', 'inverse', 'inplace_inverse', 'sqrt_mod', 'mod', 'imod', 'fail_if_divisible_by', 'jacobi_symbol', 'floordiv'):
+        m = a[-1]
+        if isinstance(m, int):
+            d.append('m=0' if m == 0 else 'm=1' if m == 1 else 'm<0' if m < 0 else 'm even' if m % 2 == 0 else 'm odd')
+    if op in ('pow3', 'inplace_pow3', 'pow2', 'inplace_pow2') and isinstance(a[1], int) and a[1] < 0:
+        d.append('e<0')
+    return ','.join(d)
+
+
 def agree_class(args, exp, got):
     sigs = [_sig(got[b]) for b in sorted(got)]
     if len(set(sigs)) > 1:
-        return '%s:%s' % (args['op'], '|'.join('%s=%s' % (b, _sig(got[b])) for b in sorted(got)))
-    vals = [repr(got[b][1:]) for b in sorted(got)]
-    return '%s:%s' % (args['op'], 'same type, different value/effect')
+        return '%s[%s]:%s' % (args['op'], _operands(args), '|'.join('%s=%s' % (b, _sig(got[b])) for b in sorted(got)))
+    return '%s[%s]:%s' % (args['op'], _operands(args), 'same type, different value/effect')
 
 
 def value_class(args, exp, got):
     o = got[0]
     what = 'raises ' + o[1] if (isinstance(o, list) and o and o[0] == 'raises') else 'wrong value or effect'
-    return '%s:%s:%s' % (args['backend'], args['op'], what)
+    return '%s:%s[%s]:%s' % (args['backend'], args['op'], _operands(args), what)
 
 
 def _raw():
